@@ -2,7 +2,7 @@
    (generic) and Inst_Walker.v / Inst_RunState.v (about tables REGENERATED from /repo on this run). *)
 From Coq Require Import List NArith Bool Arith Lia String.
 From RG.Ast Require Import Tree Walker WalkerProof WalkSpec WfCheck WalkPanic.
-From RG.Engine Require Import RunState.
+From RG.Engine Require Import RunState Reentrant.
 From RGW Require Import Gen_AstSchema Gen_Walker Gen_WalkTags Gen_WalkState Gen_RunnerState Inst_Walker Inst_RunState.
 Import ListNotations.
 
@@ -118,7 +118,42 @@ Theorem C09_per_match_fields_are_own :
 Proof. intros f Hf A leftover h. apply reg_history_independent. exact (per_match_always_In f Hf). Qed.
 Print Assumptions C09_per_match_fields_are_own.
 
+(* type-pattern bindings ($t, $n of `[$n]T`, ...) never survive into the next match: every MatchIdentical starts by emptying
+   every field of the matcher state kept in the RunnerState -- unconditionally, whether the previous match on this state
+   succeeded, failed half-way with variables bound, or ran in another file (the inventory of the state and the body of
+   reset() are read from typematch.go on this run) *)
+Theorem C09_type_pattern_bindings_are_per_match :
+  gen_typematch_resets_bindings_per_match = true /\ strs_eqb gen_fields_typematch_MatcherState known_typematch_state = true /\
+  strs_subset gen_fields_typematch_MatcherState gen_typematch_reset_clears = true.
+Proof. exact typematch_bindings_reset. Qed.
+Print Assumptions C09_type_pattern_bindings_are_per_match.
+
+(* the captures of a comment rule never leak to the next rule tried on the same comment: whatever the rules in front of it
+   captured (and were rejected by their filters), a rule looks names up in the list of ITS OWN captures *)
+Theorem C09_comment_captures_are_the_rules_own :
+  forall (capture : Type) (leftover : list capture) (h : list (list capture)),
+  acc_history comment_match_scope leftover h = h.
+Proof. intros. rewrite comment_match_per_rule. apply acc_iteration_own. Qed.
+Print Assumptions C09_comment_captures_are_the_rules_own.
+
+(* runs that overlap (a Report callback that calls Engine.Run, a run on another goroutine): as long as no RunnerState is
+   used by two runs at a time, every run of every interleaving delivers the reports of its own walk -- it does not depend
+   on the runs around it either; a run without RunContext.State has a state nobody else can have *)
+Theorem C09_overlapping_runs_are_independent :
+  (forall steps, exclusive [] steps = true -> forall r, delivered (exec w0 steps) r = lone steps r) /\
+  nil_policy_ok gen_nil_policy = true /\ gen_new_runner_state_allocates_all = true.
+Proof. split; [exact exclusive_runs_exact|]. destruct nil_state_is_fresh as [H1 H2]. rewrite H1. auto. Qed.
+Print Assumptions C09_overlapping_runs_are_independent.
+
 (* ---- non-vacuity ---- *)
+Example c09_shared_match_object_leaks :
+  acc_history ScopeLoop [] [[("who", 1%N)]; [("who", 2%N)]]%string = [[("who", 1%N)]; [("who", 1%N); ("who", 2%N)]]%string.
+Proof. exact acc_loop_leaks. Qed.
+Example c09_state_released_early_refuted :
+  let steps := [Start 0 7; Visit 0 1; Start 1 7; Visit 1 5; Finish 1; Visit 0 2; Finish 0]%N in
+  exclusive [] steps = false /\
+  delivered (exec w0 steps) 0%N = [1%N] /\ lone steps 0%N = [1; 2]%N /\ delivered (exec w0 steps) 1%N = [5; 2]%N.
+Proof. exact early_release_refuted. Qed.
 (* a store that is skipped for some evaluations (no captures / same operand as the last store) leaks *)
 Example c09_conditional_store_leaks :
   reg_history N WriteSometimes 0%N [(2%N, true); (1%N, false)] = [2%N; 2%N] /\
